@@ -5,8 +5,8 @@ Driver for the enum area: decodes one case, prints the region and the model / sp
 
   (case <id> c04    (type "T" s|u <bits> [int]) (blocks B…) (win v…) (stale (<label> ("Name" v)…)…))
   (case <id> c12    (type …) (flags json text sql gorm) (blocks B…) (target v) (strs "s"…)
-                    (jsons (str "s")|null|other …) (sqls (bytes "s")|other …) (ints v…) (encs v…))
-  (case <id> c12t   (type …) (blocks B…) (ints v…))
+                    (jsons (str "s")|null|other …) (sqls (bytes "s")|other …) (ints (<TV kind> v…)…) (encs v…))
+  (case <id> c12t   (type …) (blocks B…) (ints (<TV kind> v…)…))
   (case <id> c14    (type …) (blocks B…) (hi N) (neg v…))
   (case <id> c14raw (type …) (blocks B…))
   (case <id> c01enum (flags …) (mode type|list|file|star) (types ("T" <kind> [sel])…) (blocks B…))      -- C01 leg
@@ -45,6 +45,16 @@ def parseInput (p : Sexp) : Option Input := do
     let blocks ← (← p.field? "blocks").args.mapM (fun bl => bl.args.mapM parseSpec)
     let _ := rest       -- an optional trailing atom (the kind's spelling) is accepted and ignored
     some { T := nm t, kind := ⟨sg == "s", b⟩, blocks }
+  | _ => none
+
+/-- kind name ↦ (kind, listed by ListTypes) -/
+def kindOfName (k : String) : Option (Kind × Bool) :=
+  match k with
+  | "int" => some (⟨true, 64⟩, true) | "uint" => some (⟨false, 64⟩, true)
+  | "int8" => some (⟨true, 8⟩, false) | "uint8" => some (⟨false, 8⟩, false)
+  | "int16" => some (⟨true, 16⟩, false) | "uint16" => some (⟨false, 16⟩, false)
+  | "int32" => some (⟨true, 32⟩, true) | "uint32" => some (⟨false, 32⟩, true)
+  | "int64" => some (⟨true, 64⟩, false) | "uint64" => some (⟨false, 64⟩, false)
   | _ => none
 
 def intsOf (p : Sexp) (key : String) : List Int :=
@@ -130,6 +140,16 @@ def showCls : Option DecErr → String
 
 def enumerate {α} (l : List α) : List (Nat × α) := (List.range l.length).zip l
 
+/-- `(ints (int64 1 2 …) (uint8 255 …) …)`: IsEnum probes by the kind of TV -/
+def probesOf (p : Sexp) : List (String × Kind × Int) :=
+  match p.field? "ints" with
+  | some f => f.args.flatMap (fun g => match g with
+      | .list (.atom k :: vs) => match kindOfName k with
+        | some kk => (vs.filterMap Sexp.asInt?).map (fun v => (k, kk.1, v))
+        | none => []
+      | _ => [])
+  | none => []
+
 structure C12Probes where
   json : Bool
   text : Bool
@@ -139,7 +159,7 @@ structure C12Probes where
   strs : List Name
   jsons : List JsonIn
   sqls : List SqlIn
-  ints : List Int
+  ints : List (String × Kind × Int)
   encs : List Int
 
 def c12Model (i : Input) (q : C12Probes) : List (String × String) :=
@@ -172,7 +192,7 @@ def c12Model (i : Input) (q : C12Probes) : List (String × String) :=
       ++ (enumerate q.strs).flatMap (fun (j, s) =>
             [(s!"parse:{j}", match parseEnum vm s with | some v => s!"ok {v}" | none => "err"),
              (s!"try:{j}", let r := tryParseEnum vm s q.target; s!"{r.1} {r.2}")])
-      ++ q.ints.map (fun v => (s!"isenum:{v}", toString (isEnum i.kind (valuesT cs) v)))
+      ++ q.ints.map (fun (n, kV, v) => (s!"isenum:{n}:{v}", toString (isEnum i.kind kV (valuesT cs) v)))
 
 def c12Spec (i : Input) (q : C12Probes) : List (String × String) :=
   let d := i.decl
@@ -189,7 +209,7 @@ def c12Spec (i : Input) (q : C12Probes) : List (String × String) :=
   ++ (enumerate q.strs).flatMap (fun (j, s) =>
         [(s!"parse:{j}", match specParse T d s with | some v => s!"ok {v}" | none => "err"),
          (s!"try:{j}", let r := specDecode T d (some s) q.target; s!"{r.1} {r.2}")])
-  ++ q.ints.map (fun v => (s!"isenum:{v}", toString (specIsEnum d v)))
+  ++ q.ints.map (fun (n, _, v) => (s!"isenum:{n}:{v}", toString (specIsEnum d v)))
 
 def c12Case (id : String) (payload : List Sexp) : List String :=
   let p := Sexp.list (.atom "p" :: payload)
@@ -203,22 +223,26 @@ def c12Case (id : String) (payload : List Sexp) : List String :=
       strs := ((p.field? "strs").map (·.args)).getD [] |>.filterMap (fun a => a.asAtom?.map nm),
       jsons := ((p.field? "jsons").map (·.args)).getD [] |>.filterMap parseJsonIn,
       sqls := ((p.field? "sqls").map (·.args)).getD [] |>.filterMap parseSqlIn,
-      ints := intsOf p "ints", encs := intsOf p "encs" }
-    let reg := if WF i && F_isenum_trunc i.kind i.decl q.ints then "F_isenum_trunc" else region i
+      ints := probesOf p, encs := intsOf p "encs" }
+    let pr := q.ints.map (fun (_, kV, v) => (kV, v))
+    let reg := if WF i && !probesOK pr then "Out"
+      else if WF i && F_isenum_sign i.kind i.decl pr then "F_isenum_sign" else region i
     both id (c12Model i q) (c12Spec i q) reg
 
-/-- the out-of-range IsEnum probes of one enum (separate case so that the finding region is narrow) -/
+/-- the IsEnum probe matrix of one enum over every integer type TV (separate case so that a finding
+    region stays narrow) -/
 def c12tCase (id : String) (payload : List Sexp) : List String :=
   let p := Sexp.list (.atom "p" :: payload)
   match parseInput p with
   | none => err id "bad-enum-case"
   | some i =>
-    let ints := intsOf p "ints"
-    let reg := if !WF i then "Out" else if F_isenum_trunc i.kind i.decl ints then "F_isenum_trunc" else "WF"
+    let ints := probesOf p
+    let pr := ints.map (fun (_, kV, v) => (kV, v))
+    let reg := if !WF i || !probesOK pr then "Out" else if F_isenum_sign i.kind i.decl pr then "F_isenum_sign" else "WF"
     match gen i.kind i.T i.blocks with
     | .file cs =>
-      both id (ints.map (fun v => (s!"isenum:{v}", toString (isEnum i.kind (valuesT cs) v))))
-        (ints.map (fun v => (s!"isenum:{v}", toString (specIsEnum i.decl v)))) reg
+      both id (ints.map (fun (n, kV, v) => (s!"isenum:{n}:{v}", toString (isEnum i.kind kV (valuesT cs) v))))
+        (ints.map (fun (n, _, v) => (s!"isenum:{n}:{v}", toString (specIsEnum i.decl v)))) reg
     | _ => both id [] [] "Out"
 
 /-! ### C14 -/
@@ -276,16 +300,6 @@ def c14rawCase (id : String) (payload : List Sexp) : List String :=
     | _ => both id [] [] "Out"
 
 /-! ### C01 leg -/
-
-/-- kind name ↦ (kind, listed by ListTypes) -/
-def kindOfName (k : String) : Option (Kind × Bool) :=
-  match k with
-  | "int" => some (⟨true, 64⟩, true) | "uint" => some (⟨false, 64⟩, true)
-  | "int8" => some (⟨true, 8⟩, false) | "uint8" => some (⟨false, 8⟩, false)
-  | "int16" => some (⟨true, 16⟩, false) | "uint16" => some (⟨false, 16⟩, false)
-  | "int32" => some (⟨true, 32⟩, true) | "uint32" => some (⟨false, 32⟩, true)
-  | "int64" => some (⟨true, 64⟩, false) | "uint64" => some (⟨false, 64⟩, false)
-  | _ => none
 
 /-- `(case <id> c01enum (flags bit json text sql gorm) (mode type|list|file|star)
       (types ("T" <kind> [sel]) …) (blocks B…))` -/
